@@ -6,6 +6,8 @@ keeps every side condition — so a history of edits through references keeps de
 defining bindings determined in the initial document.
 -/
 namespace Nima
+-- name tokens are compared by spelling in this file (see `NameCmp` in Model/Edit.lean)
+attribute [local instance] NameCmp.spelled
 
 open Node
 
